@@ -80,9 +80,33 @@ Definition model_ok (c : scase) : bool :=
                     | Some t, Some (Some a) => equivb t a
                     | _, _ => false end) (c_positions c).
 
+(* two generated classes of one stub share a name (C11's kf_hint_collision): both are emitted, in row order, and the
+   later one shadows the earlier; the stubs of two presentations then still hold the same classes as a multiset *)
+Fixpoint remove_first {A} (e : A -> A -> bool) (x : A) (l : list A) : option (list A) :=
+  match l with
+  | [] => None
+  | y :: r => if e x y then Some r else option_map (cons y) (remove_first e x r)
+  end.
+Fixpoint multiset_eqb {A} (e : A -> A -> bool) (a b : list A) : bool :=
+  match a with
+  | [] => match b with [] => true | _ => false end
+  | x :: r => match remove_first e x b with Some b' => multiset_eqb e r b' | None => false end
+  end.
+Fixpoint names_distinct (l : list string) : bool :=
+  match l with [] => true | x :: r => negb (existsb (String.eqb x) r) && names_distinct r end.
+Definition class_name (c : string * (string * bool) * list (string * option ty)) : string := fst (fst c).
+Definition class_collision (s : stubsum) : bool := negb (names_distinct (map class_name (s_classes s))).
+Definition same_classes_as_multiset (a b : stubsum) : bool :=
+  list_eqb String.eqb (s_imports a) (s_imports b) && multiset_eqb class_eqb (s_classes a) (s_classes b)
+  && list_eqb String.eqb (map f_qualname (s_funcs a)) (map f_qualname (s_funcs b)).
+
 (* 0 ok | 1 model <> reference stub at some position | 2 the two stubs differ | 5 differ inside the known
-   finding class kf_rlu_ambiguous_ancestor *)
+   finding class kf_rlu_ambiguous_ancestor | 6 differ only in the order of same-named generated classes (and in what
+   the shadowed name then denotes): finding class kf_hint_collision *)
 Definition verdict_c14 (c : scase) : nat :=
-  if negb (stub_equivb (c_ref c) (c_other c)) then (if c_ambiguous c && c_rewrite c then 5 else 2)
+  if negb (stub_equivb (c_ref c) (c_other c)) then
+    (if class_collision (c_ref c) && same_classes_as_multiset (c_ref c) (c_other c) then 6
+     else if c_ambiguous c && c_rewrite c then 5 else 2)
   else if c_ambiguous c then 0         (* the model follows one particular member order; not compared there *)
+  else if class_collision (c_ref c) then 0   (* a shadowed class name: what the annotation denotes is the recorded finding *)
   else if negb (model_ok c) then 1 else 0.
